@@ -762,10 +762,18 @@ func (r *Raft) submitReadOnlyOperation(
 		return operationFuture
 	}
 
+	// Until an entry from this term has been committed, the commit index of a new leader
+	// may lag behind entries that the previous leader acknowledged. Use the end of the log
+	// in that case so that the read is not served before those entries have been applied.
+	readIndex := r.commitIndex
+	if !r.committedThisTerm() {
+		readIndex = r.log.LastIndex()
+	}
+
 	operation := &Operation{
 		Bytes:         operationBytes,
 		OperationType: readOnlyType,
-		readIndex:     r.commitIndex,
+		readIndex:     readIndex,
 	}
 	r.operationManager.pendingReadOnly[operation] = operationFuture.responseCh
 
